@@ -1,13 +1,110 @@
 // Conformance harness for the template engine: C04 (expressions), C02 (documented expansion), C01 (safety of any text),
 // C03 (printing paths), C17 (purity / cached / concurrent renders).
 //   expr   <infile> <out> [from]     lines: <expression units csv> TAB <tokens json>; evaluates and renders the three tag forms
-//   render <infile> <out> [from]     lines: <template units csv> TAB <value json units csv> TAB <meta json>; renders in 3 widths
+//   render <infile> <out> [from]     lines: <template units csv> TAB <value json units csv> TAB <meta json>; renders in 4 widths
 //   (both copy the json columns into the event unchanged; `from` = first case to run, for crash recovery)
+//   parse  <infile> <out> [from]     (xasan build, hook H2) lines as for render; renders once in char and records the scanner's
+//                                    state at every dispatched token: {"c":case,"i":step,"tok":id,"tree":..,"ps":[path..],"cur":path,
+//                                    "lt":path,"ch":0/1}; a path is [record, sub-container, record, ...], [-1] = not inside the tree
 #include "common.hpp"
+#ifdef QENTEM_VERIF
+namespace vfp {
+template <class Root, class Stack, class Cont, class Loop>
+static void parse_event(unsigned tok, const Root &root, const Stack &ps, const Cont *cur, const Loop *ltag, bool child);
+}
+#define QENTEM_VERIF_PARSE_EVENT(tok, root, ps, cur, ltag, child) ::vfp::parse_event(tok, root, ps, cur, ltag, child)
+#endif
 #include "JSON.hpp"
 #include "Template.hpp"
 
 using namespace Qentem;
+
+#ifdef QENTEM_VERIF
+namespace vfp {
+static bool g_on   = false;
+static long g_case = 0, g_step = 0;
+using Qentem::Tags::TagBit;
+using Qentem::Tags::TagType;
+
+static void path_json(std::string &o, const std::vector<int> &p) {
+    o += "[";
+    for (size_t i = 0; i < p.size(); ++i) o += (i ? "," : "") + std::to_string(p[i]);
+    o += "]";
+}
+// writes the tree below `c`; remembers the path of the container `want` and of the loop record `loop`
+struct Dump {
+    const void                   *want_loop;
+    std::vector<const void *>     want_conts;
+    std::vector<std::vector<int>> cont_paths;
+    std::vector<int>              loop_path{-1};
+    std::vector<int>              path;
+    std::string                   out;
+    void cont(const Array<TagBit> &c) {
+        for (size_t w = 0; w < want_conts.size(); ++w)
+            if (want_conts[w] == (const void *)&c) cont_paths[w] = path;
+        out += "[";
+        int i = 0;
+        for (const TagBit *t = c.First(); t != c.End(); ++t) {
+            if (i++) out += ",";
+            path.push_back(i);
+            const char *k = "none";
+            int closed = 1, lv = 0;
+            std::vector<const Array<TagBit> *> subs;
+            switch (t->GetType()) {
+                case TagType::Variable:
+                case TagType::RawVariable: k = "var"; break;
+                case TagType::Math: k = "math"; closed = t->GetMathTag().EndOffset != 0; break;
+                case TagType::SuperVariable: k = "svar"; closed = t->GetSuperVariableTag().EndOffset != 0; subs.push_back(&t->GetSuperVariableTag().SubTags); break;
+                case TagType::InLineIf: k = "iif"; closed = t->GetInLineIfTag().Length != 0; subs.push_back(&t->GetInLineIfTag().SubTags); break;
+                case TagType::Loop:
+                    k = "loop"; closed = t->GetLoopTag().EndOffset != 0; lv = t->GetLoopTag().Level; subs.push_back(&t->GetLoopTag().SubTags);
+                    if ((const void *)&t->GetLoopTag() == want_loop) loop_path = path;
+                    break;
+                case TagType::If: {
+                    k = "if"; closed = t->GetIfTag().EndOffset != 0;
+                    for (const auto *cs = t->GetIfTag().Cases.First(); cs != t->GetIfTag().Cases.End(); ++cs) subs.push_back(&cs->SubTags);
+                    break;
+                }
+                default: break;
+            }
+            out += std::string("{\"k\":\"") + k + "\",\"c\":" + std::to_string(closed) + ",\"lv\":" + std::to_string(lv) + ",\"s\":[";
+            int j = 0;
+            for (const auto *sc : subs) {
+                if (j++) out += ",";
+                path.push_back(j);
+                cont(*sc);
+                path.pop_back();
+            }
+            out += "]}";
+            path.pop_back();
+        }
+        out += "]";
+    }
+};
+template <class Root, class Stack, class Cont, class Loop>
+static void parse_event(unsigned tok, const Root &root, const Stack &ps, const Cont *cur, const Loop *ltag, bool child) {
+    if (!g_on || vf::g_trace == nullptr || g_step > 200) return;   // long cases are not validated (the dump is quadratic); the check skips them
+    Dump d;
+    d.want_loop = (const void *)ltag;
+    for (auto *const *p = ps.First(); p != ps.End(); ++p) d.want_conts.push_back((const void *)*p);
+    d.want_conts.push_back((const void *)cur);
+    d.cont_paths.assign(d.want_conts.size(), std::vector<int>{-1});
+    d.cont(root);
+    std::string o = "{\"c\":" + std::to_string(g_case) + ",\"i\":" + std::to_string(g_step++) + ",\"tok\":" + std::to_string(tok == ~0U ? 12 : (int)tok) + ",\"tree\":" + d.out + ",\"ps\":[";
+    for (size_t w = 0; w + 1 < d.want_conts.size(); ++w) {
+        if (w) o += ",";
+        path_json(o, d.cont_paths[w]);
+    }
+    o += "],\"cur\":";
+    path_json(o, d.cont_paths.back());
+    o += ",\"lt\":";
+    if (ltag == nullptr) o += "[]";
+    else path_json(o, d.loop_path);
+    o += ",\"ch\":" + std::to_string(child ? 1 : 0) + "}\n";
+    fputs(o.c_str(), vf::g_trace);
+}
+}   // namespace vfp
+#endif
 
 template <typename Ch>
 static std::vector<long> units_of(const StringStream<Ch> &ss, SizeT from = 0) {
@@ -128,6 +225,12 @@ int main(int argc, char **argv) {
             std::vector<long> o16 = render<char16_t>(t, v16, p16);
             Value<char32_t>   v32 = parse_value<char32_t>(vj);
             std::vector<long> o32 = render<char32_t>(t, v32, p32);
+            {
+                bool              pw = true;
+                Value<wchar_t>    vw = parse_value<wchar_t>(vj);
+                std::vector<long> ow = render<wchar_t>(t, vw, pw);
+                if (!pw || ow != o32) p32 = false;   // wchar_t is a 32-bit unit here: same units as char32_t
+            }
             std::string jt, jo;
             vf::json_ints(jt, t);
             vf::json_ints(jo, o8);
@@ -139,6 +242,32 @@ int main(int argc, char **argv) {
             fprintf(out, "{\"t\":%s,\"out\":%s,\"prefix\":%d,\"wsame\":%d,\"vsame\":%d,\"meta\":%s}\n", jt.c_str(), jo.c_str(), (p8 && p16 && p32) ? 1 : 0, wsame ? 1 : 0,
                     before == after ? 1 : 0, cols[2].c_str());
         }
+    } else if (mode == "parse") {
+#ifdef QENTEM_VERIF
+        while (vf::read_line(in, line)) {
+            long idx = n++;
+            if (idx < from) continue;
+            auto cols = vf::split(line, '\t');
+            if (cols.size() < 3) continue;
+            std::vector<long> t = vf::parse_ints(cols[0].c_str()), vj = vf::parse_ints(cols[1].c_str());
+            vf::begin_case(idx, 10);
+            {
+                std::string d = "template=";
+                for (long u : t) d.push_back((u >= 32 && u < 127) ? (char)u : '?');
+                snprintf(vf::g_desc, sizeof(vf::g_desc), "%s", d.substr(0, 900).c_str());
+            }
+            Value<char> v8 = parse_value<char>(vj);
+            bool        p8 = true;
+            vfp::g_case = idx;
+            vfp::g_step = 0;
+            vfp::g_on   = true;
+            std::vector<long> o8 = render<char>(t, v8, p8);
+            vfp::g_on = false;
+            fflush(out);
+        }
+#else
+        return 2;
+#endif
     } else return 2;
     fclose(out);
     vf::g_trace = nullptr;
